@@ -13,6 +13,8 @@ import shutil
 import sys
 import tempfile
 
+import common
+
 import jinja2
 
 from vinegar.data_source import DataSource
@@ -165,6 +167,10 @@ def target_for_model(cfg):
     t = target_configured(cfg)
     if cfg.get("target_raw") is None:
         return t
+    if cfg.get("target_literal"):
+        # spellings that are not lexically normalised ("./x", "a/../x", a symbolic link followed by ".."): the model gets
+        # the configured text, only made absolute - lexical normalisation would change what it denotes to the OS
+        return t if t.startswith("/") else base_dir() + "/" + t
     return os.path.abspath(os.path.join(base_dir(), t))
 
 
@@ -345,7 +351,7 @@ def _tftp_server():
     if "tftp" not in _servers:
         from vinegar.tftp.server import TftpServer
         front = _TftpFront()
-        srv = TftpServer([front, _TftpFallback()], "::1", 0, default_timeout=2.0, max_retries=1)
+        srv = TftpServer([front, _TftpFallback()], "::1", common.free_udp_port(), default_timeout=2.0, max_retries=1)
         srv.start()
         atexit.register(srv.stop)
         _servers["tftp"] = (srv, front, srv._socket.getsockname()[1])
